@@ -356,7 +356,12 @@ def r5_counts(ctx, rep, R):
                               f, c)
                 rep.check(not in_loop, R, key(f, c, "counted once per package"), f, c)
             tables[(cname, hname)] = sorted(entries)
-            # failed += 1 only in FAILURE branches
+            # failed += 1 only in FAILURE branches, and at least once where failures are counted
+            n_inc = sum(1 for n in cfg.live_nodes() if n.kind == "stmt" and isinstance(n.ast, ast.AugAssign)
+                        and utext(n.ast.target) == "failed_transaction_count")
+            if hname != "execute_place":
+                rep.check(n_inc >= 1, R, key(f, None, "a FAILURE report increments the failed-transaction counter"), f,
+                          None, "failed instructions are never counted in this handler")
             for n in cfg.live_nodes():
                 if n.kind == "stmt" and isinstance(n.ast, ast.AugAssign) and \
                         utext(n.ast.target) == "failed_transaction_count":
